@@ -52,6 +52,12 @@ fn main() {
                 }
             }
             for (i, c) in cases.iter().enumerate() {
+                // "the current time" must hold for every response, not only for a thread's first one:
+                // all cases run on this thread, and one pause longer than the Date tolerance (2 s)
+                // separates the first few from the rest
+                if i == 5 && cases.len() > 50 {
+                    std::thread::sleep(std::time::Duration::from_millis(2300));
+                }
                 let line = respgen::run_case(i as u64, c, &tmpdir);
                 writeln!(out, "{}", line).unwrap();
             }
@@ -127,9 +133,10 @@ fn main() {
             for w in what.split('+') {
                 match w {
                     "drop" => for k in 0..n { let t = tmpdir.clone(); let i = id; id += 1;
-                        if k % 3 == 2 { jobs.push(Box::new(move || sv::drop_queued_case(i))); }
+                        if k % 6 == 5 { jobs.push(Box::new(move || sv::drop_dead_unix_case(i, &t))); }
+                        else if k % 3 == 2 { jobs.push(Box::new(move || sv::drop_queued_case(i))); }
                         else { jobs.push(Box::new(move || sv::drop_case(i, k % 2 == 1, &t))); } },
-                    "burst" => for k in 0..n { let i = id; id += 1; let sz = [5usize, 16, 4, 8, 40][k % 5]; jobs.push(Box::new(move || sv::burst_case(i, sz))); },
+                    "burst" => for k in 0..n { let i = id; id += 1; let sz = [5usize, 16, 4, 8, 40][k % 5]; let held = [0usize, 1, 3, 0, 2][(k / 5 + k) % 5]; jobs.push(Box::new(move || sv::burst_case_held(i, sz, held))); },
                     // one reclaim case per process (thread counts are per process): n = burst size
                     "reclaim" => { let i = id; id += 1; jobs.push(Box::new(move || sv::reclaim_case(i, n))); },
                     _ => {}
